@@ -36,7 +36,7 @@ class Layout:
     """file text + for each site the 1-based original line range [lo, hi]; every site is preceded by a unique marker
     statement so that the text after a run can be split into the same segments (identical bodies make a global diff ambiguous)"""
 
-    def __init__(self, header, body, n, pads, indent):
+    def __init__(self, header, body, n, pads, indent, wrap="if"):
         self.header, self.body, self.n, self.indent = header, body, n, indent
         out = list(header)
         self.ranges = []
@@ -45,7 +45,8 @@ class Layout:
             out += ["\n"] * pads[i]
             out.append(marker(i))
             if indent:
-                out.append("if True:\n")
+                # every site in its own function: local names of one copy cannot interfere with another copy
+                out.append(f"def site_fn_{i}():\n" if wrap == "def" else "if True:\n")
             lo = len(out) + 1
             self.offsets.append(len(out))  # body line j (0-based) is file line offsets[i] + j + 1
             for ln in body:
@@ -76,11 +77,36 @@ class Layout:
         return [lines[bounds[k]:bounds[k + 1]] for k in range(len(bounds) - 1)]
 
 
-def build(code: str, n: int, pads=None, indent: int = 0) -> Layout | None:
+def single_line_construct(text: str, line: int) -> bool:
+    """is the innermost statement (for compound statements: its header) containing `line` confined to that one line?"""
+    try:
+        tree = ast.parse(text)
+    except SyntaxError:
+        return False
+    best = None
+    for node in ast.walk(tree):
+        if isinstance(node, ast.stmt) and node.lineno <= line <= (node.end_lineno or node.lineno):
+            lo, hi = node.lineno, node.end_lineno or node.lineno
+            body = getattr(node, "body", None)
+            if isinstance(body, list) and body and isinstance(body[0], ast.stmt):
+                first = min(b.lineno for b in body)
+                decos = getattr(node, "decorator_list", [])
+                if decos:
+                    lo = min(d.lineno for d in decos)
+                if line < first:
+                    hi = first - 1          # the header of a compound statement
+                else:
+                    continue                # the line belongs to a nested statement, found separately
+            if best is None or (hi - lo) < (best[1] - best[0]):
+                best = (lo, hi)
+    return best is not None and best[0] == best[1] == line
+
+
+def build(code: str, n: int, pads=None, indent: int = 0, wrap: str = "if") -> Layout | None:
     header, body = split_seed(code)
     if not body:
         return None
-    lay = Layout(header, body, n, pads or [1] * n, indent)
+    lay = Layout(header, body, n, pads or [1] * n, indent, wrap)
     try:
         ast.parse(lay.text)
     except SyntaxError:
